@@ -728,15 +728,13 @@ def explore(ctx, label, r, mode, seed_base):
     return len(edges)
 
 
-def model_devs(ctx):
-    out = {}
-    for dev in DEVS:
-        cfg, defs = model(["EBD"], [2], [2], [1], ["lo", "hi"], ["lo"], ["hi"], [1, 2], ["PSK4"], [120], emit=False, dev=[dev], scales=[-7, 0])
-        r = tlc_cached(cfg, defs, 900)
-        if not r.violated:
-            raise tlc.TlcError(f"deviation {dev} is not detected by the laws of BlockDiag.tla")
-        out[dev] = r.violated
-    ctx.notes["deviations_refuted_by_model"] = out
+def model_dev(dev):
+    """one deviation flag TRUE: TLC must find a violated law"""
+    cfg, defs = model(["EBD"], [2], [2], [1], ["lo", "hi"], ["lo"], ["hi"], [1, 2], ["PSK4"], [120], emit=False, dev=[dev], scales=[-7, 0])
+    r = tlc_cached(cfg, defs, 900)
+    if not r.violated:
+        raise tlc.TlcError(f"deviation {dev} is not detected by the laws of BlockDiag.tla")
+    return r.violated
 
 
 def instances(tier):
@@ -750,7 +748,7 @@ def instances(tier):
     res = []
     # configuration sweep: every class x K x antennas x rank x scale x power x noise x ext-int power x metric (one TLC run;
     # BlockDiagonalizer objects have pe = "na", so the three classes do not multiply)
-    res.append(("sweep", (["BD", "WBD", "EBD"], [2, 3, 4], [1, 2, 3], [1, 2], plab, ["lo", "hi"], pel, sns, mods, [120]), sweep_kw, {"max_len": 8}))
+    res.append(("sweep", (["BD", "WBD", "EBD"], [2, 3, 4] if thorough else [2, 3], [1, 2, 3], [1, 2], plab, ["lo", "hi"], pel, sns, mods, [120]), sweep_kw, {"max_len": 8}))
     # call histories
     if thorough:
         res.append(("history:BD", (["BD"], [3], [1, 2, 3], [1], ["lo", "hi", "mid"], ["lo", "hi"], ["zero"], [1], ["PSK4"], [120]), {"scales": [-7, 0, 7]}, {"walks": 300, "walk_len": 12}))
@@ -766,9 +764,10 @@ def instances(tier):
         res.append(("history:EBD:K4pe0", (["EBD"], [4], [2, 3], [1], ["mid"], ["mid"], ["zero"], [1, 2], ["PSK4"], [120]),
                     {"scales": [-7, 7]}, {"walks": 800, "walk_len": 14, "max_len": 14}))
     else:
-        res.append(("history:BD", (["BD"], [3], [2, 3], [1], ["lo", "hi"], ["lo", "hi"], ["zero"], [1], ["PSK4"], [120]), {"scales": [-7, 0, 7]}, {"walks": 20, "walk_len": 10}))
+        res.append(("history:BD", (["BD"], [4], [2, 3], [1], ["lo", "hi"], ["lo", "hi"], ["zero"], [1], ["PSK4"], [120]), {"scales": [-7, 0, 7]}, {"walks": 20, "walk_len": 10}))
         res.append(("history:WBD", (["WBD"], [2], [2, 3], [1], ["lo", "hi"], ["lo"], ["zero", "hi"], [1], ["PSK4"], [120]), {"scales": [0, 7]}, {"walks": 20, "walk_len": 10}))
-        res.append(("history:EBD:attrs", (["EBD"], [2], [2], [1], ["lo", "hi"], ["lo"], ["zero", "hi"], [1], ["PSK4"], [120]), {"scales": [-7]},
+        res.append(("history:EBD:attrs", (["EBD"], [2], [2], [1], ["lo", "hi"], ["lo"], ["zero", "hi"], [1], ["PSK4"], [120]),
+                    {"scales": [-7], "acts": ALL_ACTS - {"EditDict", "Scribble", "CalcReceiveFilter"}},
                     {"walks": 40, "walk_len": 12, "max_len": 12}))
         res.append(("history:EBD:K2", (["EBD"], [2], [2, 3], [1], ["hi"], ["lo"], ["hi"], [1, 2], ["PSK4"], [120]), {"extras": True},
                     {"walks": 60, "walk_len": 12, "max_len": 12}))
@@ -798,10 +797,10 @@ def run(ctx):
         return tlc_cached(cfg, defs, 1800)
 
     with ThreadPoolExecutor(3) as ex:
-        devf = ex.submit(model_devs, ctx)
+        devf = [ex.submit(model_dev, d) for d in DEVS]
         futs = [ex.submit(tlc_run, inst) for inst in insts]
         runs = [f.result() for f in futs]
-        devf.result()
+        ctx.notes["deviations_refuted_by_model"] = {d: f.result() for d, f in zip(DEVS, devf)}
     nedges = {}
     for n, (inst, r) in enumerate(zip(insts, runs)):
         t0 = time.time()
